@@ -447,6 +447,8 @@ def densify(coords: CoordList, resolution: float) -> CoordList:
     new_coords = [coords[0]]
     for p1, p2 in zip(coords[:-1], coords[1:]):
         if not short_enough(p1, p2):
+            if not resolution > 0:
+                raise ValueError(f"resolution must be positive, got {resolution}")
             segment = geometry.LineString([p1, p2])
             segment_length = segment.length
             d = resolution
@@ -715,7 +717,8 @@ class Geometry(SupportsCoords[float]):
             raise ValueError("Cannot project geometries without CRS")
 
         if resolution == "auto":
-            resolution = _auto_resolution(self)
+            # geometries without area (lines, points) have no scale to derive it from
+            resolution = _auto_resolution(self) or None
 
         if resolution is not None and math.isfinite(resolution):
             geom = self.segmented(resolution)
@@ -1406,7 +1409,7 @@ def lonlat_bounds(
         return geom.boundingbox
 
     if resolution == "auto":
-        resolution = _auto_resolution(geom)
+        resolution = _auto_resolution(geom) or None
 
     if resolution is not None and math.isfinite(resolution):
         geom = geom.segmented(resolution)
